@@ -237,6 +237,9 @@ func ruleAlloc(c *Ctx, prefix string, want map[string]bool) {
 func ruleAllocLock(c *Ctx, prefix string, ai *allocImpl) {
 	rule := prefix + "ALLOC.LOCK"
 	for _, m := range ai.Methods {
+		if inlinedEverywhere(c, m) {
+			continue // explored inline from its callers, with the callers' locks
+		}
 		ex := NewExplorer(c.P, c.Pure, m)
 		type res struct {
 			n   int
@@ -261,8 +264,8 @@ func ruleAllocLock(c *Ctx, prefix string, ai *allocImpl) {
 		}
 		ex.Run()
 		n := 0
-		for _, b := range m.Blocks {
-			for _, in := range b.Instrs {
+		for _, in := range viewInstrs(m) {
+			{
 				r, ok := sites[in]
 				if !ok {
 					continue
@@ -473,8 +476,8 @@ func ruleAllocate(c *Ctx, prefix string, ai *allocImpl, want map[string]bool) {
 	}
 	emit := func(rule string, sites map[ssa.Instruction]*res, name, okMsg string) {
 		n := 0
-		for _, b := range fn.Blocks {
-			for _, in := range b.Instrs {
+		for _, in := range viewInstrs(fn) {
+			{
 				r, ok := sites[in]
 				if !ok {
 					continue
@@ -531,16 +534,14 @@ func ruleAllocate(c *Ctx, prefix string, ai *allocImpl, want map[string]bool) {
 
 func fnCalls(fn *ssa.Function) string {
 	var sb strings.Builder
-	for _, b := range fn.Blocks {
-		for _, in := range b.Instrs {
-			if call, ok := in.(*ssa.Call); ok {
-				if f := call.Call.StaticCallee(); f != nil {
-					sb.WriteString(f.String())
-					sb.WriteByte(' ')
-				}
+	eachInstr(fn, func(in ssa.Instruction) {
+		if call, ok := in.(*ssa.Call); ok {
+			if f := call.Call.StaticCallee(); f != nil {
+				sb.WriteString(f.String())
+				sb.WriteByte(' ')
 			}
 		}
-	}
+	})
 	return sb.String()
 }
 
@@ -667,8 +668,8 @@ func ruleFree(c *Ctx, prefix string, ai *allocImpl) {
 	ex.Run()
 	emit := func(rule string, sites map[ssa.Instruction]*res, name, okMsg string) {
 		n := 0
-		for _, b := range fn.Blocks {
-			for _, in := range b.Instrs {
+		for _, in := range viewInstrs(fn) {
+			{
 				r, ok := sites[in]
 				if !ok {
 					continue
@@ -878,6 +879,9 @@ func ruleAllocIndexBounded(c *Ctx, rule string) {
 	n := 0
 	for _, ai := range findAllocImpls(c) {
 		for _, m := range ai.Methods {
+			if inlinedEverywhere(c, m) {
+				continue
+			}
 			ex := NewExplorer(c.P, c.Pure, m)
 			type res struct {
 				n   int
@@ -913,8 +917,8 @@ func ruleAllocIndexBounded(c *Ctx, rule string) {
 			}
 			ex.Run()
 			k := 0
-			for _, b := range m.Blocks {
-				for _, in := range b.Instrs {
+			for _, in := range viewInstrs(m) {
+				{
 					r, ok := sites[in]
 					if !ok {
 						continue
